@@ -22,6 +22,16 @@ guarded (`downcast_ref`, `downcast`), and `write` asserts equal types before swa
 theorem C13_all_casts_guarded :
     castSitesToTyped = 2 ∧ downcastRefGuarded = true ∧ downcastBoxGuarded = true ∧ writeAssertsSameType = true := by decide
 
+/-! ## A value handed to `insert` is stored iff the key was vacant, otherwise dropped with its entry -/
+
+/-- Both maps (sharded `AssetCache`, single-threaded `LocalAssetCache`) insert with `entry(key).or_insert(entry)` inside
+one lock / borrow scope: the first entry for a key survives and the late one is dropped — the `lost` branch of the
+ledger's `St.own`. A replacing `insert` would free an entry whose handles are out and keep the late value instead
+(re-entrant loads reach this without any thread race). -/
+theorem skel_insert_keeps_first :
+    skel_cache_AssetMap_for_AssetMap_insert = [.call .s_get_shard, .acq .s_write 0, .call .s_entry, .call .s_or_insert, .rel 0] ∧
+    skel_local_cache_AssetMap_for_AssetMap_insert = [.acq .s_borrow_mut 0, .call .s_entry, .call .s_or_insert, .rel 0] := ⟨rfl, rfl⟩
+
 /-! ## The replaced value leaves the entry under the write lock -/
 
 /-- `UntypedEntry::write`: the bytes of the new and the old value are swapped inside the write-lock
